@@ -58,6 +58,67 @@ func klLit(xs []nebula.VerifKL) string {
 	return hx.List(s)
 }
 
+// kvDelta: entries of cur that are new or changed, and keys of old that are gone (both sorted by key).
+func kvDelta(old, cur []nebula.VerifKV) string {
+	var s []string
+	for _, e := range cur {
+		if v, ok := kvGet(old, e.K); !ok || v != e.V {
+			s = append(s, hx.Tuple(hx.N(e.K), hx.Some(hx.N(e.V))))
+		}
+	}
+	for _, e := range old {
+		if _, ok := kvGet(cur, e.K); !ok {
+			s = append(s, hx.Tuple(hx.N(e.K), "None"))
+		}
+	}
+	return hx.List(s)
+}
+
+func klGet(xs []nebula.VerifKL, k uint64) ([]uint64, bool) {
+	for _, e := range xs {
+		if e.K == k {
+			return e.L, true
+		}
+	}
+	return nil, false
+}
+
+func u64sEq(a, b []uint64) bool {
+	if len(a) != len(b) {
+		return false
+	}
+	for i := range a {
+		if a[i] != b[i] {
+			return false
+		}
+	}
+	return true
+}
+
+func klDelta(old, cur []nebula.VerifKL) string {
+	var s []string
+	for _, e := range cur {
+		if l, ok := klGet(old, e.K); !ok || !u64sEq(l, e.L) {
+			s = append(s, hx.Tuple(hx.N(e.K), hx.Some(hx.NList(e.L))))
+		}
+	}
+	for _, e := range old {
+		if _, ok := klGet(cur, e.K); !ok {
+			s = append(s, hx.Tuple(hx.N(e.K), "None"))
+		}
+	}
+	return hx.List(s)
+}
+
+func dumpLit(d nebula.VerifHMDump) string {
+	is := make([]string, len(d.Infos))
+	for i, hi := range d.Infos {
+		is[i] = hiLit(hi)
+	}
+	return hx.App("mkSt", hx.List(is), kvLit(d.Hosts), klLit(d.More), kvLit(d.Indexes), kvLit(d.Remote), kvLit(d.Relays),
+		kvLit(d.PVpn), kvLit(d.PIdx), "[]")
+}
+
 func hiLit(h nebula.VerifHI) string {
 	return hx.Tuple(hx.N(h.ID), hx.App("mkHI", hx.NList(h.Addrs), hx.N(uint64(h.Local)), hx.N(uint64(h.Remote)), hx.NList(u32s(h.Relays))))
 }
@@ -147,14 +208,20 @@ func (h *hmHist) record(opLit, outLit string, desc any) {
 		}
 	}
 	// an eviction: a hostinfo left Indexes although the operation was not a delete of it
-	if len(d.Indexes) < len(h.prev.Indexes) && !strings.HasPrefix(opLit, "(ODelete") {
-		h.feat["evict"] = true
+	if !strings.HasPrefix(opLit, "(ODelete") {
+		for _, e := range h.prev.Indexes {
+			if v, ok := kvGet(d.Indexes, e.K); !ok || v != e.V {
+				h.feat["evict"] = true
+			}
+		}
 	}
 	if len(d.More) > 0 {
 		h.feat["multi"] = true
 	}
-	h.steps = append(h.steps, hx.App("mkStep", opLit, outLit, hx.List(delta), kvLit(d.Hosts), klLit(d.More), kvLit(d.Indexes),
-		kvLit(d.Remote), kvLit(d.Relays), kvLit(d.PVpn), kvLit(d.PIdx)))
+	p := h.prev
+	h.steps = append(h.steps, hx.App("mkStep", opLit, outLit, hx.List(delta), kvDelta(p.Hosts, d.Hosts), klDelta(p.More, d.More),
+		kvDelta(p.Indexes, d.Indexes), kvDelta(p.Remote, d.Remote), kvDelta(p.Relays, d.Relays), kvDelta(p.PVpn, d.PVpn),
+		kvDelta(p.PIdx, d.PIdx)))
 	h.ops = append(h.ops, desc)
 	h.prev = d
 }
@@ -556,7 +623,7 @@ func (h *hmHist) emit(cw *hx.CaseWriter, ctor, label string) {
 	if kind == "" {
 		kind = h.kind()
 	}
-	cw.Add(hx.App(ctor, hx.List(h.steps)), kind, nfeat >= 2,
+	cw.Add(hx.App(ctor, hx.List(h.steps), dumpLit(h.prev)), kind, nfeat >= 2,
 		map[string]any{"ops": h.ops, "unsafe_at": h.unsafeAt, "witness": ctor == "CWitness", "peers": h.peers})
 }
 
@@ -682,6 +749,9 @@ func hmWitness(c *hx.Ctx, cw *hx.CaseWriter) {
 }
 
 func hmFindingListed() bool {
+	if os.Getenv("VERIF_HM_WITNESS") == "1" { // debugging aid: emit the witness histories regardless
+		return true
+	}
 	for _, p := range []string{"../KNOWN_FINDINGS.json", "/verif/KNOWN_FINDINGS.json"} {
 		b, err := os.ReadFile(p)
 		if err != nil {
